@@ -42,10 +42,10 @@ pub enum Op {
     DropS(usize),
     Send(usize, u64),
     SRecv(usize),
-    Respond(usize, u64),
-    DropActive(usize),
-    PRecv(usize),
-    DropPending(usize),
+    Respond(usize, usize, u64),
+    DropActive(usize, usize),
+    PRecv(usize, usize),
+    DropPending(usize, usize),
     Connected,
 }
 enum Cl {
@@ -249,7 +249,7 @@ pub fn run(d: &Dom, name: &str, cfg: &Cfg, ops: &[Op], creator: Side, cside: [Si
                         }
                     }
                 },
-                Op::Respond(j, v) => match act[*j].first() {
+                Op::Respond(j, k, v) => match act[*j].get(k % act[*j].len().max(1)) {
                     None => "respond=none".into(),
                     Some(Act::R(a)) => format!("respond={:?}", a.send_copy(*v).map_err(|e| iceoryx2_ffi_c::verif_into_c_int(e) as i32)),
                     Some(Act::C(a)) => {
@@ -257,15 +257,16 @@ pub fn run(d: &Dom, name: &str, cfg: &Cfg, ops: &[Op], creator: Side, cside: [Si
                         format!("respond={:?}", if rc == IOX2_OK { Ok(()) } else { Err(rc) })
                     }
                 },
-                Op::DropActive(j) => {
+                Op::DropActive(j, k) => {
                     if act[*j].is_empty() {
                         "drop_active=none".into()
                     } else {
-                        drop_act(act[*j].remove(0));
+                        let at = k % act[*j].len();
+                        drop_act(act[*j].remove(at));
                         "drop_active".into()
                     }
                 }
-                Op::PRecv(i) => match pend[*i].first() {
+                Op::PRecv(i, k) => match pend[*i].get(k % pend[*i].len().max(1)) {
                     None => "precv=none".into(),
                     Some(Pend::R(p)) => match p.receive() {
                         Ok(Some(r)) => format!("precv=Ok(Some({}))", *r.payload()),
@@ -289,11 +290,12 @@ pub fn run(d: &Dom, name: &str, cfg: &Cfg, ops: &[Op], creator: Side, cside: [Si
                         }
                     }
                 },
-                Op::DropPending(i) => {
+                Op::DropPending(i, k) => {
                     if pend[*i].is_empty() {
                         "drop_pending=none".into()
                     } else {
-                        drop_pend(pend[*i].remove(0));
+                        let at = k % pend[*i].len();
+                        drop_pend(pend[*i].remove(at));
                         "drop_pending".into()
                     }
                 }
@@ -347,12 +349,31 @@ pub fn run(d: &Dom, name: &str, cfg: &Cfg, ops: &[Op], creator: Side, cside: [Si
 }
 
 pub fn gen(rng: &mut Rng) -> (Cfg, Vec<Op>) {
-    let cfg = Cfg { max_clients: rng.range(1, 2) as usize, max_servers: rng.range(1, 2) as usize, active: rng.range(1, 2) as usize, resp_buffer: rng.range(1, 3) as usize };
+    let cfg = Cfg { max_clients: rng.range(1, 2) as usize, max_servers: rng.range(1, 2) as usize, active: rng.range(1, 3) as usize, resp_buffer: rng.range(1, 3) as usize };
     let mut ops = vec![Op::CreateS(0), Op::CreateC(0)];
     let mut v = 100u64;
-    for _ in 0..rng.range(8, 30) {
+    for _ in 0..rng.range(8, 40) {
         let i = rng.below(2) as usize;
+        let k = rng.below(4) as usize;
         v += 1;
+        if rng.chance(1, 8) {
+            // channel-reuse gadget: answer a request, abandon its pending response unread, then keep sending
+            // until the channel is recycled and read the newest pending response
+            ops.push(Op::Send(0, v));
+            ops.push(Op::SRecv(0));
+            ops.push(Op::Respond(0, 3, v + 1000));
+            ops.push(Op::DropPending(0, 3));
+            for r in 0..cfg.active + 1 {
+                ops.push(Op::Send(0, v + 2000 + r as u64));
+                ops.push(Op::SRecv(0));
+                ops.push(Op::Respond(0, 7, v + 3000 + r as u64));
+                ops.push(Op::PRecv(0, 7));
+                ops.push(Op::PRecv(0, 7));
+                ops.push(Op::DropPending(0, 7));
+                ops.push(Op::DropActive(0, 0));
+            }
+            continue;
+        }
         ops.push(match rng.below(20) {
             0 => Op::CreateC(i),
             1 => Op::DropC(i),
@@ -360,10 +381,10 @@ pub fn gen(rng: &mut Rng) -> (Cfg, Vec<Op>) {
             3 => Op::DropS(i),
             4..=7 => Op::Send(i, v),
             8..=10 => Op::SRecv(i),
-            11..=13 => Op::Respond(i, v),
-            14 => Op::DropActive(i),
-            15..=17 => Op::PRecv(i),
-            18 => Op::DropPending(i),
+            11..=13 => Op::Respond(i, k, v),
+            14 => Op::DropActive(i, k),
+            15..=17 => Op::PRecv(i, k),
+            18 => Op::DropPending(i, k),
             _ => Op::Connected,
         });
     }
